@@ -16,6 +16,7 @@ mod c11;
 mod c12;
 mod c13;
 mod c15;
+mod c16;
 mod gallina;
 mod impls;
 mod lab;
@@ -100,6 +101,7 @@ fn main() {
         "c12" => c12::run(&ctx),
         "c13" => c13::run(&ctx),
         "c15" => c15::run(&ctx),
+        "c16" => c16::run(&ctx),
         other => {
             eprintln!("unknown property {other}");
             std::process::exit(2);
